@@ -34,8 +34,13 @@ class Check(HCheck):
             al.pcrawl(2, (Bb, (Bb + b"p:k|", C1 + b"h:c|", Ab)), (Ab, (Bb,))),  # abandoned after 2 steps
             al.REOPEN,
             al.clear("domain", {A: "path1"}),
+            al.clear("subdomain", {}),  # no anchored rule: nothing is written besides the headers
         ]
+        # every sequence over a small alphabet (no merging of byte-equal states: what the object
+        # remembers in RAM about ids must not matter, and the state key cannot see it)
+        seq = [al.create(Ax), al.create(Axy, Ab), al.delete(0), al.page(Bb), al.clear("subdomain", {}), al.clear("domain", {A: "path1"}), al.REOPEN, ops[8]]
         return [
+            Space(Cfg("domain"), seq, 6 if thorough else 5, name="ids/all-sequences", dedup=False),
             Space(Cfg("domain"), ops, 6 if thorough else 5, name="ids/domain"),
             Space(Cfg("subdomain", {Ax: "path2"}), ops + [al.page(Axy), al.page(Ax + b"p:k|p:l|")], 5 if thorough else 4, roots=[al.R0, al.R1], name="ids/subdomain+path2"),
         ]
